@@ -53,7 +53,7 @@ def build_harness(sdir, b, cpp_wrappers=False, extra=None, tag=""):
     return out, h, desc
 
 
-def run(exe, mode, call_lines, sdir, tag, env=None, timeout=3600):
+def run(exe, mode, call_lines, sdir, tag, env=None, timeout=3600, extra_args=None):
     """-> (list of output lines, returncode, stderr text)"""
     cf = os.path.join(sdir, "calls_%s.txt" % tag)
     of = os.path.join(sdir, "out_%s.txt" % tag)
@@ -70,7 +70,7 @@ def run(exe, mode, call_lines, sdir, tag, env=None, timeout=3600):
     for k in ("ASAN_OPTIONS", "UBSAN_OPTIONS", "TSAN_OPTIONS"):
         if k in e and "log_path" not in e[k]:
             e[k] += ":log_path=" + logp
-    p = subprocess.run([exe, mode, cf, of], env=e, stdout=subprocess.PIPE, stderr=subprocess.PIPE, timeout=timeout)
+    p = subprocess.run([exe, mode, cf, of] + list(extra_args or []), env=e, stdout=subprocess.PIPE, stderr=subprocess.PIPE, timeout=timeout)
     lines = open(of).read().split("\n") if os.path.exists(of) else []
     if lines and lines[-1] == "":
         lines.pop()
